@@ -14,6 +14,7 @@ import (
 	"fmt"
 	"net"
 	"sort"
+	"syscall"
 	"testing"
 	"time"
 
@@ -177,6 +178,10 @@ func c07run(run *vlab.Run, c c07case) (obs c07obs) {
 	for e, id := range rw.attErrs {
 		attErrs[e] = id
 	}
+	bareIDs := map[uint32]bool{}
+	for id := range rw.bareIDs {
+		bareIDs[id] = true
+	}
 	rw.mu.Unlock()
 
 	// ---- frames: written multiset == built multiset, byte for byte
@@ -229,8 +234,11 @@ func c07run(run *vlab.Run, c c07case) (obs c07obs) {
 	gotN := map[error]int{}
 	gotW := map[uint32]int{}
 	unknown := 0
+	gotBare := 0
 	for _, e := range got {
-		if _, ok := expErrs[e]; ok {
+		if e == error(syscall.ENOBUFS) {
+			gotBare++ // the same value for every frame that failed this way: counted
+		} else if _, ok := expErrs[e]; ok {
 			gotN[e]++
 		} else if id, ok := attErrs[e]; ok {
 			gotN[e]++
@@ -261,7 +269,15 @@ func c07run(run *vlab.Run, c c07case) (obs c07obs) {
 		}
 	}
 	room := 0
+	loBare, hiBare := 0, 0
 	for id, f := range failedWrites {
+		if bareIDs[id] {
+			if okWrites[id] == 0 {
+				loBare++
+			}
+			hiBare += f
+			continue
+		}
 		r := gotW[id]
 		if okWrites[id] == 0 && r == 0 {
 			missing++
@@ -270,6 +286,11 @@ func c07run(run *vlab.Run, c c07case) (obs c07obs) {
 		} else {
 			room += f - r
 		}
+	}
+	if gotBare < loBare {
+		run.Violation("error-lost:write", fmt.Sprintf("%d frames were never written (every write of them failed with ENOBUFS) but only %d ENOBUFS errors were reported: %+v", loBare, gotBare, c), c)
+	} else if gotBare > hiBare {
+		run.Violation("error-spurious", fmt.Sprintf("%d ENOBUFS errors reported, %d writes failed that way: %+v", gotBare, hiBare, c), c)
 	}
 	if unknown < missing {
 		// errors whose identity was changed by a stage are still one error each (C13 judges their text);
